@@ -1,7 +1,9 @@
 package c01
 
 import (
+	"bytes"
 	"fmt"
+	"io"
 	"os"
 	"path/filepath"
 	"sort"
@@ -27,6 +29,8 @@ type Case struct {
 	Ops      []ops.Op `json:"ops"`
 	SaveFile bool     `json:"save_file"` // final save through Save(path) in addition to ToBytes
 	Nested   bool     `json:"nested"`    // Save into not-yet-existing nested directories
+	// Start, when set, is a package written by another producer: the history starts on the document opened from it
+	Start *Start `json:"start,omitempty"`
 }
 
 var cfg = &ops.Config{Classes: gen.AllClasses, Weights: boosted()}
@@ -51,7 +55,20 @@ var tails = [][]string{
 }
 
 func genCase(t *rapid.T) Case {
+	// a quarter of the histories start from a package of another producer (foreignstart.go)
+	if rapid.IntRange(0, 3).Draw(t, "foreign-start") == 3 {
+		return genForeignCase(t)
+	}
 	c := genCase0(t)
+	// calls that touch only some parts (read-only accessors, removers, ...) anywhere in the history
+	if rapid.IntRange(0, 2).Draw(t, "partial") == 0 {
+		n := rapid.IntRange(1, 3).Draw(t, "npartial")
+		for i := 0; i < n; i++ {
+			o := cfg.C01Op(t, rapid.SampledFrom(c01Kinds).Draw(t, "partialkind"))
+			at := rapid.IntRange(0, len(c.Ops)).Draw(t, "partialat")
+			c.Ops = append(c.Ops[:at], append([]ops.Op{o}, c.Ops[at:]...)...)
+		}
+	}
 	if rapid.IntRange(0, 3).Draw(t, "tail") == 0 {
 		for _, k := range rapid.SampledFrom(tails).Draw(t, "tailsel") {
 			c.Ops = append(c.Ops, cfg.OpOf(t, k))
@@ -81,7 +98,8 @@ func CheckPackage(res *kit.Result, b []byte, where string) *opc.Package {
 			continue
 		}
 		if pkg.IsXMLPart(name) {
-			if err := xmlwf.Check(pkg.Parts[name]); err != nil {
+			// a UTF-8 byte order mark may precede an XML document (XML 1.0, 4.3.3); the checker judges what follows it
+			if err := xmlwf.Check(stripBOM(pkg.Parts[name])); err != nil {
 				res.Fail("C01.P2", "%s: part %q is not well-formed: %v", where, name, err)
 			}
 		}
@@ -128,6 +146,53 @@ func run(c Case) *kit.Result {
 	kinds := map[string]bool{}
 	hostile, special := false, false
 	var shape []string
+	okOps := 0
+	if c.Start != nil {
+		in := c.Start.Pkg.Bytes()
+		// precondition: the opened package is itself a well-formed package by this very oracle
+		pre := &kit.Result{}
+		CheckPackage(pre, in, "input")
+		if len(pre.Failures) > 0 {
+			res.Count("excluded:input-package-rejected-by-oracle", 1)
+			res.Label("start:input-rejected")
+			res.Shape = "input-rejected"
+			return res
+		}
+		var nd *document.Document
+		var oerr error
+		p, st := kit.Try(func() {
+			if c.Start.File {
+				path := filepath.Join(dir, "start.docx")
+				if werr := os.WriteFile(path, in, 0o644); werr != nil {
+					oerr = werr
+					return
+				}
+				nd, oerr = document.Open(path)
+			} else {
+				nd, oerr = document.OpenFromMemory(io.NopCloser(bytes.NewReader(in)))
+			}
+		})
+		res.Eval("C01.P0")
+		if p != nil {
+			res.Fail("C01.P0", "opening the start package panicked: %v [%s]", p, st)
+			res.Nontrivial = true
+			res.Shape = "panic"
+			return res
+		}
+		if oerr != nil || nd == nil {
+			// the library may reject a package; the history then has nothing to edit
+			res.Count("start_open_errors", 1)
+			res.Label("start:open-error")
+			res.Shape = "start-open-error"
+			return res
+		}
+		x.Adopt(nd)
+		res.Label("start:foreign")
+		for _, l := range c.Start.Shapes {
+			res.Label(l)
+		}
+		shape = append(shape, "foreign["+strings.Join(c.Start.Shapes, ",")+"]")
+	}
 	for i, op := range c.Ops {
 		kinds[op.K] = true
 		for _, cl := range op.Cls {
@@ -146,7 +211,16 @@ func run(c Case) *kit.Result {
 			res.Label("op:" + op.K)
 		}
 		var err error
-		p, st := kit.Try(func() { err = x.Do(op) })
+		if ops.IsC01(op.K) {
+			res.Label("op:partial-touch")
+		}
+		p, st := kit.Try(func() {
+			if ops.IsC01(op.K) {
+				err = x.DoC01(op)
+			} else {
+				err = x.Do(op)
+			}
+		})
 		res.Eval("C01.P0")
 		if p != nil {
 			res.Fail("C01.P0", "op %d %s panicked: %v [%s]", i, op.K, p, st)
@@ -160,6 +234,8 @@ func run(c Case) *kit.Result {
 		e := "ok"
 		if err != nil {
 			e = "err"
+		} else {
+			okOps++
 		}
 		shape = append(shape, op.K+":"+e+":"+strings.Join(op.Cls, ","))
 		for j, sv := range x.Saves {
@@ -233,6 +309,17 @@ func run(c Case) *kit.Result {
 	}
 	sort.Strings(ks)
 	res.Nontrivial = len(ks) >= 3 && (hostile || special)
+	if c.Start != nil {
+		// a history on another producer's package: at least one part in a shape the library does not write itself
+		// and at least one successful call before the save
+		nl := false
+		for _, l := range c.Start.Shapes {
+			if l == "fp:non-library-shape" {
+				nl = true
+			}
+		}
+		res.Nontrivial = nl && okOps >= 1
+	}
 	res.Shape = strings.Join(shape, "|")
 	if hostile {
 		res.Label("hostile-string")
@@ -265,12 +352,17 @@ func TestC01(t *testing.T) {
 	if err := xmlwf.SelfTest(); err != nil {
 		t.Fatalf("oracle self-test: %v", err)
 	}
+	if err := selfTestShapes(); err != nil {
+		t.Fatalf("generator self-test: %v", err)
+	}
 	kit.Main(t, kit.Spec[Case]{
 		ID: "C01", Level: "exploration",
-		Rule: "history of 1-30 (thorough 1-60) generated API calls over the whole public API with strings from all classes; non-trivial = >=3 distinct op kinds and at least one of {hostile string class (control, XML meta, template look-alike, long), image with non-.png name, template op, markdown op, reopen}; distinct = distinct sequence of (op kind, outcome, string classes)",
+		Rule: "history of 1-30 (thorough 1-60) generated API calls over the whole public API with strings from all classes; non-trivial = >=3 distinct op kinds and at least one of {hostile string class (control, XML meta, template look-alike, long), image with non-.png name, template op, markdown op, reopen}; a quarter of the histories START on a document opened from a package of another producer (internal/foreign) whose footnotes/endnotes/numbering/settings parts come in the shapes other producers write (self-closing / empty / white-space-only root, other prefix, default namespace, XML declaration variants or none, BOM, comments and PIs around the root) and continue with 1-5 calls biased to those that touch only some parts (read-only accessors, one note kind, list items, note config, removers, save/reopen/render as template): non-trivial there = at least one part in a non-library shape and at least one successful call; distinct = distinct sequence of (start shapes, op kind, outcome, string classes)",
 		Gen:  genCase, Run: run, Findings: findings,
 		Assumptions: []string{"well-formedness is decided by the harness's own checker (encoding/xml strict + raw-token pass + attribute scanner), not by a schema validator",
-			"image data given to AddImageFromData really is of the declared format"},
-		MustSee: map[string]float64{"img:ext-not-png": 0.1, "str:control": 0.2, "op:reopen": 0.1, "op:tpldoc": 0.1, "op:md": 0.1, "entry:Save": 0.3, "op:tpldoc2": 0.05, "side-document-saved": 0.3},
+			"image data given to AddImageFromData really is of the declared format",
+			"a start package of another producer is judged by the same oracle before it is opened (a rejected one is excluded and counted); every part shape the generator can emit is proven well-formed by the checker before the search starts; a UTF-8 byte order mark before an XML document is legal and skipped before the part is judged"},
+		MustSee: map[string]float64{"img:ext-not-png": 0.1, "str:control": 0.2, "op:reopen": 0.1, "op:tpldoc": 0.1, "op:md": 0.1, "entry:Save": 0.3, "op:tpldoc2": 0.05, "side-document-saved": 0.3,
+			"start:foreign": 0.15, "fp:selfclosing-root": 0.08, "fp:prefix:other": 0.04, "fp:prefix:default-ns": 0.04, "fp:bom": 0.03, "fp:decl:none": 0.03, "op:partial-touch": 0.2},
 	})
 }
